@@ -20,6 +20,9 @@ for pid in $CLAIMED; do TARGETS="$TARGETS Lumina.Props.$pid drv_$pid"; done
 lake build $TARGETS
 cd ../harness
 [ -f Cargo.lock ] || cp /repo/Cargo.lock Cargo.lock
+# lumina's own crates are always rebuilt from /repo's current tree (a restored target dir may hold
+# artifacts of another tree: lumina-node's unhashed rlib is shared between build units)
+cargo clean --offline -p lumina-node -p celestia-types -p celestia-grpc -p celestia-grpc-macros -p lumina-utils -p celestia-proto -p verif-harness 2>/dev/null || true
 BINS=""
 for pid in $CLAIMED; do BINS="$BINS --bin $(echo "$pid" | tr 'C' 'c')"; done
 # shellcheck disable=SC2086
